@@ -34,6 +34,8 @@ package redis
 //@ prop C13 C09
 //@ ensures[manager-over-this-redis-store-with-the-cookie-options] ret1 == nil ==> called(NewManager) && arg(NewManager, 1) == cookieOpts
 //@ ensures[client-error-is-an-error] ret1(NewRedisClient) != nil ==> ret1 != nil && ret0 == nil
+//@ prop C19 C13
+//@ ensures[nonnil:a-store-or-an-error] ret1 == nil ==> ret0 != nil
 
 // ------------------------------------------------------------------ C12 / C13: the session lock fails closed
 //@ func (*Lock).Obtain
